@@ -37,7 +37,8 @@ func init() {
 	suites["chunk"] = genChunk
 }
 
-// keep extension objects in the formats GetChunk's stream Skip handles (fixext / ext8)
+// keep extension objects out of the ext32 format (and, conservatively, ext16): msgp v1.1.9's Reader.Skip peeks five
+// bytes of the six-byte ext32 header and fails; the finding is exercised separately on the EventTime (see genChunk)
 func capExt(n *Node) {
 	if n.K == KExt {
 		switch len(n.S) {
@@ -147,6 +148,11 @@ func genChunk(o *Out, r *Rng, n int, tier string) {
 			m := genChunkMsg(r, tier)
 			altHints(r, m, 30)
 			capExt(m)
+			if r.Chance(3) && len(m.A) >= 2 && m.A[1].K == KExt {
+				// the EventTime in the ext32 format: legal msgpack, and where msgp v1.1.9's stream Skip gives up
+				// (known finding C11-ext32-skip)
+				m.A[1].W = 9
+			}
 			o.emit("C11", "CHUNK", "a", hx(m.Enc()))
 		}
 	}
